@@ -392,6 +392,7 @@ def check_object(o, exp, finadd, keys, L, op, tainted, read=None):
         if got != views:
             raise Mismatch("iter:finalize" if nofin(got) == nofin(views) else "iter:pipelines",
                            "iteration #%d gives %s, expected %s" % (rnd, show_pipes(got), show_pipes(views)))
+    if stored(o, L) != exp: raise Mismatch("iteration-changed-the-object", "after two iterations the object holds %s, the spec %s" % (show_pipes(stored(o, L)), show_pipes(exp)))
     for i in list(range(n)) + ([-1, -n] if n else []):
         got = [extract(st, L) for st in o[i]]
         if got != views[i]:
@@ -554,16 +555,26 @@ def runs_of(ctx):
 
 
 def self_test(hs, L):
-    """the binding is not vacuous: one corrupted field of one generated case must be noticed"""
-    base = next(h for h in hs if h["steps"][0]["c"]["op"] == "reservoir" and h["steps"][0]["c"]["v"] == [3, 1] and h["steps"][0]["c"]["vf"] == "list")
-    if replay(base, L): raise RuntimeError("self-test: the unmodified reservoir case is rejected: %s" % (replay(base, L),))
-    muts = (("a seed", lambda h: h["steps"][0]["res"][1][1]["a"].__setitem__(1, 7)), ("the order", lambda h: h["steps"][0]["res"].reverse()),
-            ("a params key", lambda h: h["steps"][0]["keys"][0].__setitem__(1, "reservoir_size")), ("finalize", lambda h: h["steps"][0]["finadd"].__setitem__(0, 0)),
+    """the binding is not vacuous: one corrupted field of one generated case that replays cleanly must be noticed"""
+    def last_arg(h):
+        st = h["steps"][0]["res"][1][-1]
+        if st["a"]: st["a"][0] += 7
+        else: st["k"] = "Binary" if st["k"] != "Binary" else "Flatten"
+    muts = (("an argument of a stage", last_arg), ("the order", lambda h: h["steps"][0]["res"].reverse()),
+            ("a params key", lambda h: h["steps"][0]["keys"][0].__setitem__(0, "idx")), ("finalize", lambda h: h["steps"][0]["finadd"].__setitem__(0, 0)),
             ("the length", lambda h: h["steps"][0]["res"].pop()))
-    for what, mut in muts:
-        bad = json.loads(json.dumps(base)); mut(bad)
-        if not replay(bad, L): raise RuntimeError("self-test: a case with %s corrupted is replayed without a mismatch - the comparison is vacuous" % what)
-    return "%d corrupted copies of a generated case rejected" % len(muts)
+    done = 0
+    for base in hs:
+        s0 = base["steps"][0]
+        if s0["kind"] != "new" or len(s0["res"]) < 2 or len(s0["res"][0]) < 2 or s0["res"] == s0["res"][::-1] or not all(s0["finadd"]): continue
+        if replay(base, L): continue
+        for what, mut in muts:
+            bad = json.loads(json.dumps(base)); mut(bad)
+            if not replay(bad, L): raise RuntimeError("self-test: the case [%s] with %s corrupted is replayed without a mismatch - the comparison is vacuous" % (show(base), what))
+        done += 1
+        if done == 5: break
+    if not done: return "skipped: no generated case replays cleanly on this tree (the violations are reported)"
+    return "%d x %d corrupted copies of generated cases rejected" % (done, len(muts))
 
 
 def _coverage(r):
